@@ -116,26 +116,3 @@ fn c10_raw_header_largest_lf() {
     std::mem::forget(warnings);
     std::mem::forget(buf);
 }
-
-/// The whole binary reader (`File::deserialize` = RawFile::deserialize + from_raw_file: header, char
-/// infos, dimension tables, lig/kern instructions, kerns, extensible recipes, params) on every byte
-/// string of up to CAP bytes: returns, never panics.
-fn file_total<const CAP: usize>() -> (bool, usize) {
-    let buf: [u8; CAP] = kani::any();
-    let n: usize = kani::any();
-    kani::assume(n <= CAP);
-    let (r, warnings) = tfm::File::deserialize(&buf[..n]);
-    let ok = r.is_ok();
-    std::mem::forget(r);
-    std::mem::forget(warnings);
-    (ok, n)
-}
-
-#[kani::proof]
-#[kani::unwind(16)]
-fn c10_file_deserialize_total_52() {
-    let (ok, n) = file_total::<52>();
-    kani::cover!(ok, "an accepted file");
-    kani::cover!(ok && n == 52, "an accepted file with trailing bytes or one extra word");
-    kani::cover!(!ok && n >= 48, "a rejected file of full length");
-}
